@@ -29,7 +29,7 @@ EXPLANATION = (
 )
 
 MANIFEST = {
-    "technique": "static analysis: literal-table evaluation, canonical-term comparison of the unrolled subdivision, who-may-construct query over every Tile construction form, route reachability and coordinate-system forwarding by parameter binding, partial evaluation of the area helpers, memo-key dependence analysis; memo tables whose key is a projection of the dependency: shared (module-level, class-level, singleton) vs per-instance; a coordinate system counts as in hand through an unused parameter or a field of the class",
+    "technique": "static analysis: literal-table evaluation, canonical-term comparison of the unrolled subdivision, who-may-construct query over every Tile construction form, route reachability and coordinate-system forwarding by parameter binding, partial evaluation of the area helpers, memo-key dependence analysis; memo tables whose key is a projection of the dependency: shared (module-level, class-level, singleton) vs per-instance; a coordinate system counts as in hand through an unused parameter or a field of the class; the midpoint routine of the Python subdivision is the compiled one (no Python stand-in that answers differently on some path); the point-lookup route's level-1 selection and descent (shared with C12)",
     "text": "Decides the documented level-1 layout, the subdivision table, construction ownership, route agreement and absence of history-dependent state; spherical areas and floating-point edge equality are not decided.",
     "note": "Trusted: the compiled great-circle midpoint `mid` (built from _libtoasty.pyx, which cannot be rebuilt offline). Not decided: areas summing to 4*pi, equality of edges between tiles of different parents.",
 }
